@@ -352,7 +352,14 @@ def rule_rules(chk, w):
 
 
 def _len_limit(w, g):
-    """(max length for Some, min length for None) of a `|s| if s.len() > N {None} else {Some(s)}`"""
+    """(max length for Some, min length for None) of a `|s| if s.len() > N {None} else {Some(s)}`;
+    (None, None) unless the length tested is that of the very string handed on"""
+    du_ = defuse.DefUse(g.body)
+    lens = [defuse.strip_refs(du_.origin(t.args[0])) for _bb, t in _calls(g.body, r"<impl str>::len$")]
+    while lens and lens[0][0] == "deref":
+        lens[0] = lens[0][1]
+    if len(lens) != 1 or lens[0] != ("arg", 1):
+        return None, None
     it = A.Interp(w, lambda f: False, {})
     it.record_aggs = {"core::option::Option"}
     it.analyse(g)
@@ -578,6 +585,121 @@ def rule_memo(chk, w):
                  "the memo array holds %d bytes" % (rng.get("Ok"), rng.get("Err"), n), fb[0].span.loc())
 
 
+def rule_dup(chk, w):
+    """No duplicate parameter can be recorded, the lead address included: in from_uri a parameter
+    joins an existing per-index list only on the false edge of has_duplicate_param(that list, that
+    parameter); a fresh one-element list is put into the index only when the index has no list yet
+    (the map lookup answered None) or before any query parameter has been grouped."""
+    import guards as G
+    import sqlfx
+    fs = w.by_p.get(Z + "TransactionRequest::from_uri", [])
+    if len(fs) != 1:
+        chk.fail("DUP", "missing", "TransactionRequest::from_uri not found")
+        return
+    f = fs[0]
+    bodies = [f] + [g for g in w.fns.values() if g.is_closure() and g.root == f.id]
+    n = 0
+    for g in bodies:
+        b, du = g.body, defuse.DefUse(g.body)
+        cyc = sqlfx.cyclic_blocks(b)
+        lookups = [bb for bb, t in b.calls() if not b.blocks[bb].cleanup and t.callee.indirect is None and
+                   re.search(r"BTreeMap::<K, V, A>::(get_mut|get|entry|contains_key)$", t.callee.target_p())]
+        for bb, t in b.calls():
+            if b.blocks[bb].cleanup or t.callee.indirect is not None:
+                continue
+            p_ = t.callee.target_p()
+            conds = []
+            for sw, v, _tb in G.edge_conditions(b, bb):
+                o = du.origin(b.blocks[sw].term.discr)
+                conds.append((o, v, G.truth(b.blocks[sw].term, v)))
+            if re.search(r"core::vec::Vec::<T, A>::(push|insert|extend|append|extend_from_slice)$", p_) and \
+                    "Param" in (b.local_ty(t.args[0].place.local) if t.args and t.args[0].kind in ("copy", "move") else ""):
+                n += 1
+                ok = any(o[0] == "call" and o[1].endswith("parse::has_duplicate_param") and tr is False for o, _v, tr in conds)
+                if ok:
+                    chk.ok("DUP", "from_uri: a parameter joins an existing list only after has_duplicate_param answered false",
+                           sample=True)
+                else:
+                    chk.fail("DUP", "from_uri/%s#%d" % (p_.rsplit("::", 1)[-1], n), "a parameter is added to a payment's "
+                             "parameter list (%s) without the duplicate test: a repeated parameter — e.g. the lead address "
+                             "and an `address=` for the same payment — is recorded" % p_.rsplit("::", 1)[-1], t.span.loc())
+            elif re.search(r"BTreeMap::<K, V, A>::insert$", p_):
+                n += 1
+                absent = any(o[0] == "disc" and re.match(r"^get(_mut)?\(", defuse.show(o[1])) and v == 0 for o, v, _tr in conds)
+                first = bb not in cyc and bool(lookups) and not any(bb in b.reachable(lb) for lb in lookups) and \
+                    all(lb in b.reachable(bb) for lb in lookups)
+                if absent or first:
+                    chk.ok("DUP", "from_uri: a fresh list is put into the index %s" % (
+                        "only when the index has none" if absent else "before any query parameter is grouped"))
+                else:
+                    chk.fail("DUP", "from_uri/map-insert#%d" % n, "a parameter list is put into the index although one "
+                             "may already be there: the parameters recorded before are replaced unseen", t.span.loc())
+            elif re.search(r"btree_map::(Vacant|Occupied)?Entry.*::(or_default|or_insert\w*|and_modify|insert)$|"
+                           r"BTreeMap::<K, V, A>::entry$", p_):
+                n += 1
+                chk.fail("DUP", "from_uri/entry#%d" % n, "the index is updated through the entry API (%s), which this rule "
+                         "cannot tie to the duplicate test" % p_.rsplit("::", 1)[-1], t.span.loc())
+    if n < 3:
+        chk.fail("DUP", "sites", "expected the three additions to the index (lead address, fresh list, push), found %d" % n,
+                 f.span.loc())
+
+
+def rule_memo_tags(chk, w):
+    """Memo <-> MemoBytes: the decoder recognises the two marked forms exactly as the encoder writes
+    them — `Empty` only for the lead byte MemoBytes::empty() writes FOLLOWED BY ZEROS ONLY (anything
+    else with that lead byte must survive as Future), `Arbitrary` for the lead byte the encoder sets."""
+    import guards as G
+    dec = [f for f in w.fns.values() if f.p == "<zcash_protocol::memo::Memo as core::convert::TryFrom<&zcash_protocol::memo::MemoBytes>>::try_from"]
+    emp = w.by_p.get("zcash_protocol::memo::MemoBytes::empty", [])
+    enc = [f for f in w.fns.values() if f.p == "<zcash_protocol::memo::MemoBytes as core::convert::From<&zcash_protocol::memo::Memo>>::from"]
+    if len(dec) != 1 or len(emp) != 1 or len(enc) != 1:
+        chk.fail("MEMO", "tags/missing", "Memo::try_from / MemoBytes::empty / From<&Memo> not found")
+        return
+
+    def lead_stores(f):
+        out = []
+        for blk in f.body.blocks:
+            if blk.cleanup:
+                continue
+            for s in blk.stmts:
+                if s.kind == "=" and s.place.proj and str(s.place.proj[-1]).startswith("[") and s.rv.kind == "use" and \
+                        s.rv.ops[0].kind == "const" and s.rv.ops[0].info.get("v") is not None:
+                    out.append(s.rv.ops[0].info["v"])
+        return out
+    e_enc = lead_stores(emp[0])
+    a_enc = [v for v in lead_stores(enc[0])]
+    b, du = dec[0].body, defuse.DefUse(dec[0].body)
+    got = {}
+    for bi, blk in enumerate(b.blocks):
+        if blk.cleanup:
+            continue
+        for s in blk.stmts:
+            if s.kind == "=" and s.rv.kind == "agg" and s.rv.agg[0] == "adt" and s.rv.agg[1] == "zcash_protocol::memo::Memo":
+                lead, allz = None, False
+                for sw, v, _tb in G.edge_conditions(b, bi):
+                    o = du.origin(b.blocks[sw].term.discr)
+                    t = defuse.show(o) if o[0] != "disc" else ""
+                    if o[0] == "proj" and isinstance(v, int):
+                        lead = v
+                    if o[0] == "call" and o[1].endswith("Iterator::all") and G.truth(b.blocks[sw].term, v) is True and \
+                            re.search(r"skip\(iter\(.*\), 1\)", t):
+                        clo = [x for x in o[2] if x[0] == "agg" and x[1].startswith("closure:")]
+                        g = w.fns.get(clo[0][1][len("closure:"):]) if clo else None
+                        if g is not None and re.match(r"^\(\*?\*?arg1 Eq 0\)$", defuse.show(defuse.DefUse(g.body).origin_local(0))):
+                            allz = True
+                got[s.rv.agg[2]] = (lead, allz)
+    ok = e_enc == [got.get("Empty", (None,))[0]] and got.get("Empty", (None, False))[1] and \
+        got.get("Arbitrary", (None,))[0] in a_enc and len(e_enc) == 1
+    if ok:
+        chk.ok("MEMO", "Memo::try_from yields Empty only for %#x followed by zeros (what MemoBytes::empty writes) and "
+               "Arbitrary for the encoder's lead byte %#x" % (e_enc[0], got["Arbitrary"][0]), sample=True)
+    else:
+        chk.fail("MEMO", "tags", "Memo::try_from yields Empty for lead byte %s (rest all zero required: %s) and Arbitrary for "
+                 "%s; the encoder writes %s / %s — memo bytes that are not the canonical empty memo decode to Empty and "
+                 "are lost" % (got.get("Empty", (None,))[0], got.get("Empty", (None, False))[1],
+                               got.get("Arbitrary", (None,))[0], e_enc, a_enc), dec[0].span.loc())
+
+
 def _str_consts(g):
     out = []
     for blk in g.body.blocks:
@@ -795,7 +917,8 @@ def main(tier):
     chk.rule("VC-1", "Payment / TransactionRequest only from their constructors", floor=8)
     chk.rule("RULES", "ZIP 321 rejections are live and cannot be bypassed", floor=11)
     chk.rule("GRAMMAR", "index / decimal length limits and checked amount conversion", floor=4)
-    chk.rule("MEMO", "memo rendering and parsing are inverse in shape and admit every memo length", floor=5)
+    chk.rule("MEMO", "memo rendering and parsing are inverse in shape and admit every memo length", floor=6)
+    chk.rule("DUP", "every recorded parameter passed the duplicate test or starts a fresh list", floor=3)
     chk.rule("NAMES", "renderer and parser agree on parameter names", floor=3)
     chk.rule("G", "guards of reviewed panic sites", floor=2)
     chk.rule("PF", "no undischarged class-A panic site", floor=5)
@@ -804,6 +927,8 @@ def main(tier):
     rule_rules(chk, w)
     rule_grammar(chk, w)
     rule_memo(chk, w)
+    rule_memo_tags(chk, w)
+    rule_dup(chk, w)
     rule_names(chk, w)
     rule_pf(chk, w)
     chk.finish()
